@@ -244,13 +244,15 @@ def tie_more(ctx: Ctx, drv: Driver, n: int) -> None:
     mds = {}
     lines, impl, meta = [], [], []
     fixed = ["a\n===\n", "a\nb\n---\nc\n", "<div>\nx\n\ny\n", "<pre>\n\nx\n</pre>\ny\n", "para\n<div>\n", "para\n<b>\n", "- a\n  ===\n", "> a\n===\n", "> a\n> ===\n",
-             "<!-- x\n-->z\nq\n", "a\n    ===\n===\n", "- <div>\n\n  x\n", "a\n- ===\n", "a\n***\n===\n", "===\n", "a\n\n===\n", "<div>", "<div>\n", "a\n=== \n"]
+             "<!-- x\n-->z\nq\n", "- <pre>\n\t\n  x</pre>\n", "- <pre>\n    \n  x</pre>\n", "1. <!--\n \t\n   -->\n", "a\n    ===\n===\n", "- <div>\n\n  x\n", "a\n- ===\n", "a\n***\n===\n", "===\n", "a\n\n===\n", "<div>", "<div>\n", "a\n=== \n"]
     for i in range(n):
         k = i % 5
         if i < len(fixed):
             src = fixed[i]
         else:
             src = rand_more(rng) if k < 3 else (gens.struct_doc(rng, 2) if k == 3 else next(gens.doc_stream(rng, 1, 6)))
+        if i >= len(fixed) and rng.random() < 0.3:
+            src = blankify(rng, src)
         bits = rng.randrange(64) if i % 3 else 63
         html_on = rng.random() < 0.75
         mn = rng.choice([100, 100, 100, 20, 1, 0, 2, 3, 4])
@@ -286,8 +288,65 @@ def tie_more(ctx: Ctx, drv: Driver, n: int) -> None:
     ctx.cov["mblock_streams_with"] = kinds
 
 
+BLANKS = ["", " ", "\t", "  ", " \t", "\t ", "   \t", "    ", "\t\t", "  \t  ", " \t \t", "     ", "\t  \t"]
+
+
+def blankify(rng, src: str) -> str:
+    """replace some blank lines / insert whitespace-only lines spelled with spaces and tabs (their `sCount` is read by the rules
+    that compare a line's indentation with `blkIndent` before asking whether the line is empty)"""
+    ls = src.split("\n")
+    for i in range(len(ls)):
+        if ls[i].strip(" \t") == "" and rng.random() < 0.7:
+            ls[i] = rng.choice(BLANKS)
+        elif rng.random() < 0.12:
+            ls.insert(i, rng.choice(BLANKS))
+    return "\n".join(ls)
+
+
+def tie_linescan(ctx: Ctx, drv: Driver, n: int) -> None:
+    """`StateBlock.__init__` against the model's `scanGo`: every entry of the five line tables, for documents of every generator
+    plus whitespace-only lines in every spelling (driver `linescan`)"""
+    from markdown_it import MarkdownIt
+    from markdown_it.rules_block.state_block import StateBlock
+    from markdown_it.rules_core.normalize import NEWLINES_RE, NULL_RE
+
+    rng = ctx.rng
+    md = MarkdownIt("zero")
+    lines, impl, meta = [], [], []
+    for i in range(n):
+        k = i % 6
+        src = (rand_more(rng) if k == 0 else rand_l(rng) if k == 1 else rand_q(rng) if k == 2 else rand_mini(rng) if k == 3
+               else gens.struct_doc(rng, 2) if k == 4 else next(gens.doc_stream(rng, 1, 6)))
+        if rng.random() < 0.6:
+            src = blankify(rng, src)
+        src = NULL_RE.sub("\uFFFD", NEWLINES_RE.sub("\n", src))
+        try:
+            st = StateBlock(src, md, {}, [])
+            recs = []
+            for ln in range(st.lineMax):
+                b, e = st.bMarks[ln], st.eMarks[ln]
+                recs.append(f"{e - b},{st.tShift[ln]},{st.sCount[ln]},{st.bsCount[ln]},{1 if src[e:e + 1] == chr(10) else 0}")
+            out = "ok " + " ".join(recs)
+        except Exception as ex:  # noqa: BLE001
+            out = "e:" + type(ex).__name__
+        lines.append(f"linescan {enc(src)}")
+        impl.append(out.strip())
+        meta.append(src)
+    got = drv.batch(lines)
+    bad = 0
+    for a, b, m in zip(impl, got, meta):
+        ctx.corr_compared += 1
+        if a != b.strip():
+            bad += 1
+            if bad <= 3:
+                ctx.mismatch("StateBlock line tables (len, tShift, sCount, bsCount, line feed per line): implementation and model differ",
+                             {"input": m, "impl": a[:600], "model": b.strip()[:600]})
+    ctx.cov["linescan_documents_compared"] = len(lines)
+
+
 def tie_all(ctx: Ctx, drv: Driver, quick: bool) -> None:
-    """all four ties: leaf rules, + block quotes, + lists, + html_block and lheading"""
+    """all four ties: leaf rules, + block quotes, + lists, + html_block and lheading; and the line tables on their own"""
+    tie_linescan(ctx, drv, 2000 if quick else 50000)
     tie(ctx, drv, 2000 if quick else 50000)
     tie_quote(ctx, drv, 2500 if quick else 60000)
     tie_list(ctx, drv, 3500 if quick else 100000)
